@@ -56,7 +56,15 @@ def run(tier):
         if k % (10 if quick else 3) == 1:
             s["snapshot"] = True
             s["sid"] += "+snap"
-    out = tdsfam.run_and_validate(real + fl, rep, timeout=600, label="split vs uninterrupted")
+    # a snapshot taken in the middle of a transient (after a line trip), restored and continued
+    tg = tdsfam.TARGETS["kundur/kundur_full.json"]
+    fixed = []
+    for tstep, t_ev, segs in ((1 / 30, 0.2, [0.5, 1.0]), (0.02, 0.1, [0.25, 0.6, 0.9]), (1 / 30, 0.3, [0.31, 0.8])):
+        fixed.append(dict(sid="snap-in-transient[ts=%.4g|ev=%.4g|seg=%s]+snap" % (tstep, t_ev, "/".join("%.4g" % x for x in segs)),
+                          case="kundur/kundur_full.json", family="float", segs=segs, snapshot=True, compare_single=True,
+                          events=[dict(add="Toggle", model=tg["model"], dev=tg["devs"][0], t=t_ev)],
+                          tds=dict(tstep=tstep, fixt=1, no_tqdm=1)))
+    out = tdsfam.run_and_validate(real + fl + fixed, rep, timeout=600, label="split vs uninterrupted")
     tdsfam.judge(PID, out, rep)
     dm = [e["dmax_ppm"] for _, o in out if o["status"] == "ok" for e in o["trace"]["ev"] if e["e"] == "compare"]
     rep.extra["max_relative_state_difference_ppm"] = max(dm) if dm else None
